@@ -111,7 +111,13 @@ def run(out, tier, seed, proof):
         if not leaves_of(decl):
             continue
         val = [100]
-        progs.append({"decl": decl, "out": vary(rng, decl, val)})
+        outv = vary(rng, decl, val)
+        if rng.random() < 0.3:
+            # one declared product is a provisional node (ids >= 9000): its position is skipped, the others keep theirs
+            ls = leaves_of(decl)
+            victim = rng.choice(ls)
+            decl = relabel(decl, lambda i: ["L", 9000 + i] if i == victim else ["L", i])
+        progs.append({"decl": decl, "out": outv})
     chunks = [progs[i::8] for i in range(8)]
     with ThreadPoolExecutor(max_workers=8) as ex:
         res = list(ex.map(lambda ch: run_impl_worker("impl_tree.py", {"programs": ch}, timeout=1800)["programs"] if ch else [], chunks))
@@ -130,7 +136,7 @@ def run(out, tier, seed, proof):
                     out.violation("values were stored although the returned structure does not fit the declaration", {"case": c, "impl": r})
         else:
             out.count("program_fits")
-            want = {int(nd): from_coq(v, name) for nd, v in m[1]}
+            want = {int(nd): from_coq(v, name) for nd, v in m[1] if int(nd) < 9000}
             got = {int(k): v for k, v in r["files"].items()}
             if r.get("exit") != 0 or got != want:
                 out.disagreement("stored return values differ from the model", {"case": c, "impl": r, "model": want})
@@ -140,7 +146,7 @@ def run(out, tier, seed, proof):
     kws = []
     for _ in range(24 if tier == "quick" else 200):
         args = []
-        for j, form in enumerate(rng.sample(["python", "path_default", "kwargs", "python_nohash", "mixed_default"], rng.randint(1, 3))):
+        for j, form in enumerate(rng.sample(["python", "path_default", "kwargs", "python_nohash", "mixed_default", "typed_default", "typed_kwargs"], rng.randint(1, 3))):
             nid = [10 * (j + 1)]
             t = gen_tree(rng, rng.randint(1, 3), nid, none_ok=False)
             if not leaves_of(t):
@@ -154,6 +160,10 @@ def run(out, tier, seed, proof):
         out.case({"kwprogram": c})
         want = {}
         for nm, form, t in c["args"]:
+            if form in ("typed_default", "typed_kwargs"):
+                typed = [["L", 1], ["B", True], ["F", 1.0], ["L", 0], ["B", False], ["F", 0.0]]
+                want[nm] = ["list", [relabel(t, lambda i: typed[i % 6]), ["P", f"in_{nm}.txt"]]]
+                continue
             want[nm] = relabel(t, (lambda i: ["P", f"in{i}.txt"]) if form == "path_default" else (lambda i: ["L", i]))
         if r.get("exit") != 0 or r.get("kwargs") != want:
             out.disagreement("keyword arguments differ from tree_map(load, declaration)", {"case": c, "impl": r, "expected": want})
